@@ -418,7 +418,6 @@ func (c *Chain) StartRecordingCurrentBlock() {
 	}
 }
 
-
 func encUpdates(ups []abci.ValidatorUpdate) string {
 	out := ""
 	for _, u := range ups {
